@@ -130,7 +130,7 @@ Start ==
                IF c.lo = c.up
                THEN /\ n' = c.l2 /\ pc' = "alloc" /\ UNCHANGED <<calls, fate, drops, hdr, hdrops, blk, vecbuf, result>>
                ELSE /\ pc' = "collecting" /\ vecbuf' = "live" /\ UNCHANGED <<n, calls, fate, drops, hdr, hdrops, blk, result>>
-         \* observers: the panic (cases 49..: the error of a failing formatter sink or payload impl) propagates, nothing else
+         \* observers: the panic (cases 49..80: the error of a failing formatter sink or payload impl; 81: a panicking Default impl under Arc::default) propagates, nothing else
          \* happens (the handles and their values pre-exist)
          [] c.ctor = "observe" -> /\ result' = "panic" /\ pc' = "done"
                                   /\ UNCHANGED <<n, calls, fate, drops, hdr, hdrops, blk, vecbuf>>
